@@ -105,7 +105,13 @@ func WalkStruct(s capnp.Struct, depth int) Node {
 		d[i] = bytesOf(w[:])
 	}
 	n["d"] = d
-	// fields beyond the sections read as defaults
+	// fields that are not entirely inside the data section read as defaults
+	if dw >= 1 && dw < 8000 {
+		o := capnp.DataOffset(dw*8 - 8)
+		if s.Uint32(o+6) != 0 || s.Uint16(o+7) != 0 || s.Uint64(o+4) != 0 {
+			bad(n, "read straddling the end of the data section is not zero")
+		}
+	}
 	if dw < 8000 {
 		o := capnp.DataOffset(dw * 8)
 		if s.Uint64(o) != 0 || s.Uint32(o) != 0 || s.Uint16(o) != 0 || s.Uint8(o) != 0 || s.Bit(capnp.BitOffset(dw*64)) {
@@ -235,21 +241,41 @@ func WalkList(p capnp.Ptr, l capnp.List, depth int) Node {
 		for i := 0; i < ln; i++ {
 			es := l.Struct(i)
 			switch kind {
+			// a field that does not lie entirely inside the element's (sub-word) data section reads as its default,
+			// never as bytes of the neighbouring elements
 			case 2:
 				if es.Uint8(0) != u8.At(i) {
 					bad(n, "struct view of byte list element differs")
+				}
+				if es.Uint16(0) != 0 || es.Uint32(0) != 0 || es.Uint64(0) != 0 || es.Uint8(1) != 0 || es.Bit(8) {
+					bad(n, "struct view of byte list element: a field wider than / beyond the 1-byte data section is not zero")
 				}
 			case 3:
 				if es.Uint16(0) != u16.At(i) {
 					bad(n, "struct view of 2-byte list element differs")
 				}
+				if es.Uint8(0) != uint8(u16.At(i)) || es.Uint8(1) != uint8(u16.At(i)>>8) {
+					bad(n, "struct view of 2-byte list element: byte fields differ")
+				}
+				if es.Uint32(0) != 0 || es.Uint64(0) != 0 || es.Uint16(2) != 0 || es.Uint8(2) != 0 {
+					bad(n, "struct view of 2-byte list element: a field wider than / beyond the 2-byte data section is not zero")
+				}
 			case 4:
 				if es.Uint32(0) != u32.At(i) {
 					bad(n, "struct view of 4-byte list element differs")
 				}
+				if es.Uint16(0) != uint16(u32.At(i)) || es.Uint16(2) != uint16(u32.At(i)>>16) {
+					bad(n, "struct view of 4-byte list element: 2-byte fields differ")
+				}
+				if es.Uint64(0) != 0 || es.Uint32(4) != 0 || es.Uint8(4) != 0 {
+					bad(n, "struct view of 4-byte list element: a field wider than / beyond the 4-byte data section is not zero")
+				}
 			case 5:
 				if es.Uint64(0) != u64.At(i) {
 					bad(n, "struct view of 8-byte list element differs")
+				}
+				if es.Uint32(4) != uint32(u64.At(i)>>32) || es.Uint64(8) != 0 || es.Uint8(8) != 0 {
+					bad(n, "struct view of 8-byte list element: fields inside / beyond the data section differ")
 				}
 			case 6:
 				q1, e1 := es.Ptr(0)
